@@ -96,8 +96,14 @@ impl CommandAcknowledgement {
 impl CommandAcknowledgementHandle {
     /// Marks the flag to indicate that the command execution is done and changes the `CommandStatus`
     pub(crate) fn done(&self, status: CommandStatus) {
+        #[cfg(feature = "cached_verif")]
+        crate::cache::verif::point("ack.flag");
         self.done.store(true, Ordering::Release);
+        #[cfg(feature = "cached_verif")]
+        crate::cache::verif::point("ack.status");
         *self.status.lock() = status;
+        #[cfg(feature = "cached_verif")]
+        crate::cache::verif::point_need("ack.wake", || format!("ackwaker:{}", self as *const Self as usize));
         if let Some(waker) = &self.waker_state.lock().waker {
             waker.wake_by_ref();
         }
@@ -111,7 +117,13 @@ impl Future for &CommandAcknowledgementHandle {
     type Output = CommandStatus;
 
     fn poll(self: Pin<&mut Self>, context: &mut Context<'_>) -> Poll<Self::Output> {
+        #[cfg(feature = "cached_verif")]
+        crate::cache::verif::point_need("poll.lock", || format!("ackwaker:{}", *self as *const CommandAcknowledgementHandle as usize));
         let mut guard = self.waker_state.lock();
+        #[cfg(feature = "cached_verif")]
+        crate::cache::verif::hold(|| format!("ackwaker:{}", *self as *const CommandAcknowledgementHandle as usize));
+        #[cfg(feature = "cached_verif")]
+        crate::cache::verif::point("poll.register");
         match guard.waker.as_ref() {
             Some(waker) => {
                 if !waker.will_wake(context.waker()) {
@@ -122,10 +134,32 @@ impl Future for &CommandAcknowledgementHandle {
                 guard.waker = Some(context.waker().clone());
             }
         }
+        #[cfg(feature = "cached_verif")]
+        crate::cache::verif::point("poll.flag");
         if self.done.load(Ordering::Acquire) {
+            #[cfg(feature = "cached_verif")]
+            crate::cache::verif::point("poll.status");
+            #[cfg(feature = "cached_verif")]
+            crate::cache::verif::unhold(|| format!("ackwaker:{}", *self as *const CommandAcknowledgementHandle as usize));
             return Poll::Ready(*self.status.lock());
         }
+        #[cfg(feature = "cached_verif")]
+        crate::cache::verif::unhold(|| format!("ackwaker:{}", *self as *const CommandAcknowledgementHandle as usize));
         Poll::Pending
+    }
+}
+
+#[cfg(feature = "cached_verif")]
+impl CommandAcknowledgement {
+    /// A fresh, pending acknowledgement (as handed out for every queued command).
+    pub fn verif_new() -> Arc<CommandAcknowledgement> { Self::new() }
+
+    /// Completes the acknowledgement, exactly as the command worker does.
+    pub fn verif_done(&self, status: CommandStatus) { self.done(status) }
+
+    /// The three cells without polling: (done flag, status, a waker is registered).
+    pub fn verif_peek(&self) -> (bool, CommandStatus, bool) {
+        (self.handle.done.load(Ordering::Acquire), *self.handle.status.lock(), self.handle.waker_state.lock().waker.is_some())
     }
 }
 
